@@ -723,12 +723,12 @@ var c01Readers = []string{"astring", "string", "mailbox", "flag", "attr", "flags
 var c01WireAlphabet = []byte(`(){} "\*%]+$,:0123456789abNILinbox&-` + "\r\n\x00\x7f\xe9")
 
 func genC01(e *emitter, tier string, seed uint64) {
-	scale := 1
+	scale, big := 5, 2
 	switch tier {
 	case "thorough":
-		scale = 40
+		scale, big = 200, 40
 	case "widen":
-		scale = 6
+		scale, big = 30, 8
 	}
 	base := newRng(seed, "C01")
 	var jobs []func(r *rng) []caseLine
@@ -755,6 +755,17 @@ func genC01(e *emitter, tier string, seed uint64) {
 		fixed("val", cfg, "L", "( n1 n-5 )", "-")
 	}
 
+	// decoder-side canonicalisations on input the go-imap encoder itself never produces
+	for _, w := range []string{"inbox\r\n", "\"iNbOx\"\r\n", "{5}\r\nInbox\r\n", "{5+}\r\ninboX\r\n", "INBOX)", "\"in\\box\" "} {
+		fixed("raw", "s", "mailbox", hx([]byte(w)))
+		fixed("raw", "c", "mailbox", hx([]byte(w)))
+	}
+	for _, w := range []string{"\\seen ", "$JUNK)", "\\FLAGGED\r\n", "$mdnsent x", "\\* ", "\\noselect)", "\\HASNOCHILDREN ", "\\junk\r\n"} {
+		fixed("raw", "s", "flag", hx([]byte(w)))
+		fixed("raw", "c", "attr", hx([]byte(w)))
+		fixed("raw", "c", "flags", hx([]byte("("+w+")\r\n")))
+	}
+
 	// strings: every length 0..20 and the thresholds, all 16 configurations
 	lens := []int{0, 1, 2, 3, 4, 5, 6, 7, 8, 9, 10, 11, 12, 13, 14, 15, 16, 17, 18, 19, 20}
 	for _, cfg := range c01AllCfgs {
@@ -772,7 +783,7 @@ func genC01(e *emitter, tier string, seed uint64) {
 		}
 		for _, n := range []int{4095, 4096, 4097, 8192} {
 			n := n
-			add(2*scale, func(r *rng) []caseLine {
+			add(big, func(r *rng) []caseLine {
 				s := bytes.Repeat([]byte{byte('a' + r.intn(26))}, n)
 				switch r.intn(4) {
 				case 0: // plain: the length alone decides
